@@ -121,6 +121,13 @@ void apply_op(const TSOutputView &o, DateTime t, const JV &op) {
         if (o.schema()->kind == TSTypeKind::TSB) { auto b = o.as_bundle(); apply_op(b.at(i), t, op.at("op")); }
         else { auto l = o.as_list(); apply_op(l.at(i), t, op.at("op")); }
     }
+    else if (k == "wclear") {
+        // window: remove every retained tick; an optional push follows through the same mutation scope
+        auto w = o.as_window();
+        auto m = w.begin_mutation(t);
+        m.clear();
+        if (op.has("v")) m.push(value_from_json(o.schema()->value_type, op.at("v")).view());
+    }
     else if (k == "push") { auto w = o.as_window(); w.begin_mutation(t).push(value_from_json(o.schema()->value_type, op.at("v")).view()); }
     else if (k == "delta") { Value d = value_from_json(o.schema()->delta_value_schema, op.at("v")); apply_delta(o, d.view()); }
     else if (k == "tick") { o.begin_mutation(t).mark_modified(); }
